@@ -56,7 +56,7 @@ WEIGHTS = {'store': 24, 'expunge': 14, 'uidexpunge': 6, 'move': 10, 'copy': 4, '
 
 
 def section_random(ctx, clauses) -> None:
-    n = ctx.scale(220, 4000)
+    n = ctx.scale(120, 3000)
     traces = []
     hist: dict = {}
     checkpoints = compared = 0
@@ -81,7 +81,7 @@ def section_random(ctx, clauses) -> None:
             ctx.sample({'labels': SC.labels_repr(trace.labels())[:1500]})
     ctx.extra['label_histogram'] = {'random': hist}
     ctx.extra['quiescent_points'] = {'checkpoints': checkpoints, 'views_compared_with_probe': compared}
-    SC.evaluate_cases(ctx, 'store_random_traces', traces)
+    return SC.CaseEval(ctx, 'store_random_traces', traces)
 
 
 RULE = ('a case is one multi-session history: 2-4 connections on the dict backend, 8-25 commands '
@@ -97,9 +97,11 @@ def run(ctx) -> None:
     ctx.assumptions += base.ASSUMPTIONS
     ctx.check_proofs(['Store/StoreCheck'])
     clauses = SC.C02_CLAUSES
-    base.section_witnesses(ctx, clauses, WITNESSES)
-    section_random(ctx, clauses)
-    base.section_exhaustive(ctx, clauses)
+    evals = [base.section_witnesses(ctx, clauses, WITNESSES),
+             section_random(ctx, clauses),
+             base.section_exhaustive(ctx, clauses)]
+    for ev in evals:
+        ev.finish()
 
 
 replay = base.replay
